@@ -94,6 +94,9 @@ def session(d, args=(), stdin=None, env=None, noplug=True, xdist=False, preexec=
     if pid == 0:
         code = 99
         try:
+            from ..engine import pool as _pool
+
+            _pool.coverage_after_fork()
             os.setsid()
             os.chdir(d)
             out = os.open(".out", os.O_WRONLY | os.O_CREAT | os.O_TRUNC)
@@ -138,6 +141,10 @@ def session(d, args=(), stdin=None, env=None, noplug=True, xdist=False, preexec=
                 pass
             code = 98
         finally:
+            try:
+                _pool.coverage_save()
+            except BaseException:  # noqa
+                pass
             os._exit(code)
     _, st = os.waitpid(pid, 0)
     try:
